@@ -730,6 +730,10 @@ class Executor:
             raise Undecided(f"unknown attribute {base.label}.{name} at line {getattr(node, 'lineno', '?')} "
                             f"(declare it in the contract's shape)")
         if isinstance(base, ModRef):
+            if name == "__name__":
+                return base.dotted.split(".")[-1]                     # name of a library class
+            if (base.dotted + "." + name) in getattr(self, "enums", {}):
+                return self.enums[base.dotted + "." + name]          # library constant given a value by the contract module (e.g. numpy.inf)
             return ModRef(base.dotted + "." + name)
         if isinstance(base, FuncRef):
             if (base.qual + "." + name) in getattr(self, "enums", {}):
